@@ -7,6 +7,7 @@ import (
 	"bytes"
 	"fmt"
 	"math/big"
+	"reflect"
 	"strings"
 	"testing"
 
@@ -65,6 +66,14 @@ func allSchemes() []schemeInfo {
 		out = append(out, si)
 	}
 	return out
+}
+
+func toLE(v *big.Int, w int) []byte {
+	be := v.FillBytes(make([]byte, w))
+	for i, j := 0, w-1; i < j; i, j = i+1, j-1 {
+		be[i], be[j] = be[j], be[i]
+	}
+	return be
 }
 
 func canonU(b []byte) *big.Int {
@@ -280,6 +289,9 @@ func tamper(t vlib.TB, c *caseCtx, ct2 []byte, alt string, otherSK kem.PrivateKe
 		vlib.Report(t, "C01/size/"+name+"/tampered-ss", fmt.Sprintf("alt=%s: len %d", alt, len(r1)))
 		return
 	}
+	if !lightTamper && !decapsulateToAgrees(t, c, ct2, r1, alt) {
+		return
+	}
 	// is the altered part bound?
 	bound := true
 	if c.si.xlen > 0 && !c.si.xbound {
@@ -353,6 +365,84 @@ func tamper(t vlib.TB, c *caseCtx, ct2 []byte, alt string, otherSK kem.PrivateKe
 	}
 }
 
+// specialU draws a w-byte little-endian field value that is special for the Montgomery ladder: the
+// points of small order, the values around the prime and around the powers of two, in canonical form,
+// plus p, and (for 32 bytes) with the ignored top bit set.
+func specialU(t *rapid.T, w int) (string, []byte) {
+	var p *big.Int
+	one := big.NewInt(1)
+	if w == 32 {
+		p = new(big.Int).Sub(new(big.Int).Lsh(one, 255), big.NewInt(19))
+	} else {
+		p = new(big.Int).Sub(new(big.Int).Lsh(one, 448), new(big.Int).Lsh(one, 224))
+		p.Sub(p, one)
+	}
+	type cand struct {
+		n string
+		v *big.Int
+	}
+	cs := []cand{{"0", big.NewInt(0)}, {"1", big.NewInt(1)}, {"p-1", new(big.Int).Sub(p, one)}, {"p", new(big.Int).Set(p)}, {"p+1", new(big.Int).Add(p, one)}, {"2", big.NewInt(2)}, {"p-2", new(big.Int).Sub(p, big.NewInt(2))}}
+	if w == 32 {
+		o8a, _ := new(big.Int).SetString("325606250916557431795983626356110631294008115727848805560023387167927233504", 10)
+		o8b, _ := new(big.Int).SetString("39382357235489614581723060781553021112529911719440698176882885853963445705823", 10)
+		cs = append(cs, cand{"order8a", o8a}, cand{"order8b", o8b}, cand{"order8a+p", new(big.Int).Add(o8a, p)})
+	}
+	k := rapid.IntRange(0, len(cs)-1).Draw(t, "special")
+	v := new(big.Int).Set(cs[k].v)
+	nm := cs[k].n
+	max := new(big.Int).Lsh(one, uint(8*w))
+	if v.Cmp(max) >= 0 {
+		v.Sub(v, p)
+		nm += "(reduced)"
+	}
+	out := toLE(v, w)
+	if w == 32 && rapid.IntRange(0, 3).Draw(t, "top") == 0 {
+		out[31] |= 0x80
+		nm += "|top"
+	}
+	return nm, out
+}
+
+// decapsulateToAgrees: where the private key type has DecapsulateTo(ss, ct), the secret written must be
+// the one Decapsulate returns, whatever the output buffer held before (a buffer holding the honest secret
+// of an earlier decapsulation is the ordinary case), and also when the output buffer is the head of the
+// buffer holding the ciphertext.
+func decapsulateToAgrees(t vlib.TB, c *caseCtx, ct2, want []byte, alt string) bool {
+	m := reflect.ValueOf(c.sk).MethodByName("DecapsulateTo")
+	if !m.IsValid() {
+		return true
+	}
+	f, ok := m.Interface().(func(ss, ct []byte))
+	if !ok {
+		return true
+	}
+	sub := "tamper/" + c.name
+	for _, fill := range []string{"honest-secret", "a5", "in-ciphertext-buffer"} {
+		ss := make([]byte, len(want))
+		ct := append([]byte{}, ct2...)
+		switch fill {
+		case "honest-secret":
+			copy(ss, c.ss)
+		case "a5":
+			for i := range ss {
+				ss[i] = 0xa5
+			}
+		case "in-ciphertext-buffer":
+			ss = ct[:len(want):len(want)]
+		}
+		if p, st := vlib.Catch(func() { f(ss, ct) }); p != nil {
+			vlib.Report(t, "C01/panic/"+c.name+"/DecapsulateTo/"+vlib.PanicClass(p), fmt.Sprintf("alt=%s output=%s panic=%v\n%s", alt, fill, p, st))
+			return false
+		}
+		if !bytes.Equal(ss, want) {
+			vlib.Report(t, "C01/DecapsulateTo/"+c.name+"/depends-on-output-buffer/"+fill, fmt.Sprintf("kseed %x eseed %x alt=%s: DecapsulateTo into a buffer holding %s wrote %x, Decapsulate returns %x (honest secret %x)", c.kseed, c.eseed, alt, fill, ss, want, c.ss))
+			return false
+		}
+	}
+	vlib.Class(sub, "DecapsulateTo-into-used-buffers")
+	return true
+}
+
 func TestC01(t *testing.T) {
 	defer vlib.Done()
 	for _, si := range allSchemes() {
@@ -371,6 +461,9 @@ func TestC01(t *testing.T) {
 				if rapid.IntRange(0, 3).Draw(t, "doMarshal") == 0 {
 					marshalRoundTrip(t, c)
 				}
+				if !decapsulateToAgrees(t, c, c.ct, c.ss, "none") {
+					return
+				}
 				// other key of the same scheme
 				oseed := vlib.EdgeBytes(t, s.SeedSize(), "oseed")
 				// the other key must differ in every part of the seed (for Kyber/ML-KEM the
@@ -382,7 +475,7 @@ func TestC01(t *testing.T) {
 					oseed[l] ^= 1
 				}
 				opk, osk := s.DeriveKeyPair(oseed)
-				kind := rapid.SampledFrom([]string{"bitflip", "bitflip", "bitflip", "edit", "zeros", "ones", "other-key", "other-eseed", "xshare"}).Draw(t, "alt")
+				kind := rapid.SampledFrom([]string{"bitflip", "bitflip", "bitflip", "edit", "zeros", "ones", "other-key", "other-eseed", "xshare", "xlow"}).Draw(t, "alt")
 				ct2 := append([]byte{}, c.ct...)
 				alt := kind
 				switch kind {
@@ -413,6 +506,18 @@ func TestC01(t *testing.T) {
 					var err error
 					ct2, _, err = s.EncapsulateDeterministically(c.pk, es2)
 					must(t, err, "encapsulate with other seed")
+				case "xlow":
+					// the X25519/X448 share replaced by a point of small order or another special value of
+					// the field (canonical and not); schemes without such a share get the value at a drawn offset
+					w := si.xlen
+					off := si.xoff
+					if w == 0 {
+						w = 32
+						off = rapid.IntRange(0, len(ct2)-w).Draw(t, "off")
+					}
+					nm, v := specialU(t, w)
+					copy(ct2[off:off+w], v)
+					alt = fmt.Sprintf("xlow@%d/%s", off, nm)
 				case "xshare":
 					if si.xlen == 0 {
 						i := rapid.IntRange(0, 8*len(ct2)-1).Draw(t, "bit")
